@@ -263,6 +263,75 @@ def r94(db, ctx):
     ctx.floor('R9.4', n, 2, 'min_score / max_score')
 
 
+def r98(db, ctx):
+    ctx.rule('R9.8', 'a conversion that takes a background argument builds its result with *that* background (b = background.into().unwrap_or_default()), '
+                     'forwards it to the conversion it delegates to, or returns self unchanged only when b has the frequencies of self.background: '
+                     'the background a matrix reports is the one its weights are expressed against (rescale twice, or to_weight().rescale(b).to_scoring() vs to_scoring(b))')
+    n = 0
+    takers = {}
+    for k, f in db.fns.items():
+        if not k.startswith('lightmotif::pwm::') or f.kind == 'Closure' or f.promoted_of:
+            continue
+        preds = f.raw.get('preds') or []
+        bp = [i for i in range(1, f.arg_count + 1) if any(p.find(f'<{f.local_ty(i)} as core::convert::Into<core::option::Option<lightmotif::abc::Background<') >= 0 for p in preds)]
+        if bp:
+            takers[k] = (f, bp[0])
+    for k, (f, bp) in sorted(takers.items()):
+        R = X.Rec(f)
+        bexpr = lambda e: (m(('call~', 'Option::unwrap_or_default', (('p', bp),)), e) is not None) or e == ('p', bp)
+        sites, probs = 0, []
+        for bi, blk in enumerate(f.blocks):
+            if blk['cleanup']:
+                continue
+            for st in blk['stmts']:
+                if st['k'] == 'assign' and st['rv']['k'] == 'agg' and str(st['rv'].get('adt', '')).startswith('lightmotif::pwm::') and 'background' in (st['rv'].get('fields') or []):
+                    v = norm(R.at(bi).rvalue(st['rv']), True)
+                    bg = v[2][st['rv']['fields'].index('background')]
+                    sites += 1
+                    if not bexpr(bg):
+                        probs.append(f'the result is built with background {X.show(bg, 80)}, not with the background argument')
+            t = blk['term']
+            if t['k'] != 'call':
+                continue
+            c = f.callee_short(t) or ''
+            full = t.get('resolved') or t.get('callee') or ''
+            if c.endswith(('::new_unchecked', '::new')) and c.startswith('lightmotif::pwm::') and len(t['args']) == 2:
+                sites += 1
+                bg = norm(R.at(bi).operand(t['args'][0]), True)
+                if not bexpr(bg):
+                    probs.append(f'{c.rsplit("::", 2)[-2]}::{c.rsplit("::", 1)[-1]} is given background {X.show(bg, 80)}, not the background argument')
+            elif any(short(kk) == c or kk == full for kk in takers) and t['dest']['l'] == 0:
+                g, gbp = next(v_ for kk, v_ in takers.items() if short(kk) == c or kk == full)
+                sites += 1
+                bg = norm(R.at(bi).operand(t['args'][gbp - 1]), True)
+                if not bexpr(bg):
+                    probs.append(f'delegates to {c.rsplit("::", 1)[-1]} with background {X.show(bg, 80)}, not the background argument')
+            elif c.endswith('Clone::clone') and t['dest']['l'] == 0 and not t['dest']['pr']:
+                # returning self unchanged: only when the requested background has the frequencies of the current one
+                sites += 1
+                rels = G.relations(f, R, bi)
+                okc = False
+                for r in rels:
+                    if r[0] == 'eq' or (r[0] == 'false' and isinstance(r[1], tuple) and r[1][0] == 'call' and r[1][1].endswith('::ne')):
+                        a_, b_ = (r[1], r[2]) if r[0] == 'eq' else (r[1][2][0], r[1][2][1])
+                        sides = [norm(a_, True), norm(b_, True)]
+                        fr = [m(('call~', 'Background::frequencies', ('$x',)), x) for x in sides]
+                        if all(x is not None for x in fr):
+                            xs = [x['$x'] for x in fr]
+                            if any(bexpr(x) for x in xs) and any(x == ('fld', ('p', 1), 'background') for x in xs):
+                                okc = True
+                if not okc:
+                    probs.append('returns a clone of self although the requested background may differ from self.background')
+        if not sites:
+            ctx.fail('R9.8', f, 'result construction', 'reason=unrecognised-shape: no construction / delegation of the result found')
+        elif probs:
+            ctx.fail('R9.8', f, 'background of the result', '; '.join(probs))
+        else:
+            n += 1
+            ctx.ok('R9.8', f, 'result carries the background argument', [f'{sites} construction / delegation site(s)'])
+    ctx.floor('R9.8', n, 4, 'conversions taking a background')
+
+
 def range_covers(rng):
     if rng is None:
         return False
@@ -544,3 +613,4 @@ def run(db, ctx):
     r94(db, ctx)
     r95(db, ctx)
     r97(db, ctx)
+    r98(db, ctx)
